@@ -492,7 +492,13 @@ class _FArr:
         return _copy.copy(self.data)
 
     def __array__(self, dtype=None, copy=None):
-        return _np.array(self.data, dtype=dtype if dtype is not None else object)
+        a = _np.empty(self.shape, dtype=object)
+        if a.size:
+            flat = self.ravel()
+            a.ravel()[:] = flat if len(flat) == a.size else _np.array(self.data, dtype=object).ravel()
+        if dtype is not None and dtype != object:
+            return a.astype(dtype)
+        return a
 
 
 class _FScalar:
@@ -666,7 +672,10 @@ class Dataset(_Handle):
         self.node.oplog.append(("write", key, data))
         shape = self.node.shape
         whole = key is Ellipsis or key == () or (isinstance(key, slice) and key == slice(None))
-        if len(shape) == 1 and _concrete_shape(shape):
+        from vf.models import _has_symbolic
+        if _has_symbolic(key):
+            self.node.value = None        # symbolic hyperslab: only the operation log is kept
+        elif len(shape) == 1 and _concrete_shape(shape):
             n = shape[0]
             items = _as_list(data)
             if whole:
